@@ -39,6 +39,14 @@ NEEDS = {
  'C19-in-slots-3': '-cdf copy of > 131076 bytes and a reader/writer interleaving that queues a third buffer',
  'C20-package-merge-leaf-index': 'a used table over a small alphabet with skewed counts where the third-rarest symbol outweighs the second-rarest',
  'C21-xread-partial-on-error': 'a read() failure that is not the first read into a buffer',
+ 'C03b-encoder-pool-stale-cmap': 'a recycled encoder: >= 2 blocks in one run where an earlier block on the same encoder used bytes the later one lacks; which encoder is recycled depends on the schedule, so output varies with -n',
+ 'C05b-fastpath-run-guard-shift': 'a crafted RUNA/RUNB sequence of > 32 symbols whose accumulated length wraps modulo 2^32, inside retrieve()\'s fast path (>= 128 input bytes left)',
+ 'C09b-fastpath-31-granul': 'a group of fifty 20-bit codes starting exactly 31 words before the end of an input buffer; only with an input-buffer size that puts the boundary there',
+ 'C10b-emit-failfast-bogus': 'a planted block header inside coded data whose speculative decode fails while the output is waiting for the genuine block at a smaller position',
+ 'C11b-reorder-eof-instead-of-parsing-done': 'trailing garbage after the last stream that spans input blocks: the reorder task runs out of order before the parser has finished',
+ 'C16b-bailout-unblock-before-cleanup': 'a pending blocked SIGPIPE/SIGXFSZ at the time of a fatal error: the signal kills the process before cleanup() unlinks the partial output',
+ 'C18b-warned-overwritten': 'a warning on an earlier operand followed by any later non-fatal message (e.g. -v ratio line) for a good operand',
+ 'C21b-uninit-after-usr2': 'a write failure late in the run; visible as use of freed state / lost diagnostics only under a specific main/primary thread interleaving',
  'C22-env-first-only': 'two of LBZIP2/BZIP2/BZIP set at once, the later one carrying a relevant option',
 }
 
